@@ -728,6 +728,9 @@ func typecheckRelevant(p *goPkg) bool {
 			return
 		}
 		ast.Inspect(n, func(x ast.Node) bool {
+			if _, ok := x.(*ast.StarExpr); ok {
+				return false // a pointer type is printed as ptrT, whatever it points to
+			}
 			if id, ok := x.(*ast.Ident); ok && typeNames[id.Name] {
 				found = true
 			}
